@@ -360,7 +360,8 @@ impl Exec {
                     quiet += 1;
                 }
                 if quiet < 2 {
-                    if rounds >= 64 && start.elapsed() > watchdog {
+                    // something changes in every zero-timeout round: a self-waking loop inside the runtime
+                    if rounds >= 20_000 {
                         unsettled = true;
                         break;
                     }
